@@ -32,4 +32,34 @@ CHECKS["C18"] = {
     "text": "min/max/abs/zmax/smooth_linear/smoothstep/friction over widths x bases x offsets with +-k ulp nudges around each switch, friction slip radius x directions, all lattice midpoint triples for convexity, in eager, jit and vmap modes; bounds, tightness, symmetry, equality outside the band, C1 jumps across every switch checked against exact rational arithmetic. 56k cases quick / 1.2M thorough. Found and fixed catastrophic cancellation in the in-band blend.",
     "note": "reference in python fractions; denormal arguments excluded (XLA flushes them); widths below the library's 1e-14 floor judged against the floor",
 }
+CHECKS["C04"] = {
+    "engine": "E-DEV",
+    "technique": "deviation-bounded exhaustive enumeration of AL solver configurations x constraint-activity patterns, outer-iteration monitor, KKT oracle recomputed in numpy",
+    "text": "Every constraint set of the alphabet (all activity patterns {inactive, active, weakly active, duplicated, parallel} of 1-2 linear constraints, a nonlinear disk, bound constraints on index subsets with and without variable scaling) x 3 starts (feasible, infeasible, boundary) x every configuration with at most k non-default axes of 10 (multiplier-update order, low-order iterations, penalty growth, target decrease, tolerance, sub-solver cap, warm start, initial multipliers/penalties, radius) is run on the real augmented_lagrange_solve / bound_constrained_solve; at every outer iteration lambda>=0 and kappa non-decreasing; at every normal return feasibility, lambda>=0, complementarity and the true Lagrangian gradient are recomputed from scratch with bounds derived from the solver's own stopping rule; convex cases equal the active-set-enumeration minimiser. ~6k solves / 40k outer iterations quick.",
+    "note": SHIM + "k=2 on one objective and k=1 on two others in quick (3/2 thorough); n=2; exceptional exits (NameError after max_al_iters) counted, not violations (the property is conditional on normal return)",
+}
+CHECKS["C09"] = {
+    "engine": "E-BFS",
+    "technique": "explicit-state BFS over deformation histories on the real J2 update, canonical-state de-duplication, invariants on every transition vs numpy reference",
+    "text": "For 27 model configurations (hardening linear/Voce/power law x rate sensitivity x small/large/seth-hill kinematics x dt x constants incl. perfect plasticity) all histories of 10 target displacement gradients (tension/compression below, exactly at and beyond yield, shear, biaxial, rotation, zero) up to depth 3 (quick) / deeper (thorough) are explored from the virgin state with states de-duplicated on rounded internal variables, frontier evaluated under jit(vmap) in fixed chunks; on every transition: eqps non-decreasing, plastic distortion isochoric, yield consistency, minimality of the incremental potential (numpy reference), idempotence and commit-invariance for rate-independent models. 38k transitions quick. Found and fixed the seth-hill strain bug and the NaN update for perfect plasticity.",
+    "note": "reference J2 model in numpy (log strain via eigh, closed-form hardening laws); batched failures re-run as single calls and classified per the D11 protocol; plane-strain style targets",
+}
+CHECKS["C11"] = {
+    "engine": "E-BFS",
+    "technique": "explicit-state BFS over (target, time-step) histories on the real viscoelastic updates, invariants on every transition",
+    "text": "16 models (single- and three-branch, moduli and relaxation times over several decades) x all histories of 40 actions (8 targets incl. hold x dt/tau in {1e-6..1e6}) to depth 2 (quick) / 3 (thorough), canonical-state de-duplication; on every transition: dissipation >= 0, det Fv = 1 per branch, stored non-equilibrium energy (numpy reference) non-increasing on holds, virgin dt->0 / dt->inf limits against closed-form energies. 20k transitions quick / 618k thorough.",
+    "note": "moderate strains (<=0.25); the library's flow rule is not re-implemented, invariants are judged on the states the real code returns; D11 protocol for batched evaluation",
+}
+CHECKS["C12"] = {
+    "engine": "E-PROD",
+    "technique": "exhaustive product of spectra x scales x orientations x directions in two execution modes against scipy/fractions references",
+    "text": "22-40 eigenvalue patterns (gaps from exactly 0 to 0.1, rank deficient, mixed sign) x 7+ scales (1e-20..1e20, eigen also 1e+-120) x 31-40 orientations x 6 symmetric directions, each as a single jitted call and inside jit(vmap) batches of fixed length: eigen reconstruction/orthonormality/order, sqrt/exp/log/pow identities, equivariance, JVPs against Frechet derivatives stable at repeated eigenvalues, detpIm1 vs exact rationals, inverse, polar decomposition, dense sqrtm/logm_iss. 396k evaluations quick / 1.6M thorough. Found and fixed sqrt_symm NaN on singular PSD input; the batched eigen-decomposition defect (D11) is an open finding.",
+    "note": "references: numpy eigh constructions, scipy expm_frechet, Sylvester solves, python fractions; pow derivative only where documented accurate; denormals excluded",
+}
+CHECKS["C19"] = {
+    "engine": "E-PROD + E-BFS",
+    "technique": "exhaustive product for warm-start increments and scaled solves; BFS over load-step sequences through the four real drivers",
+    "text": "warm_start_increment for every basis direction x 3 magnitudes x 2 signs of the parameter change in the bc and design slots x exact/perturbed point x exact/stale/identity preconditioner against a dense numpy predictor (residual within scipy cg's stated rtol); ScaledObjective solves vs unscaled reference over stiffness-diagonal spreads up to 1e6; all load-step sequences (12 actions: 3 parameter changes x warm start on/off x preconditioner refresh on/off) to depth 4 (nonlinear_equation_solve) / 3 (TrustRegionSPG.solve, augmented_lagrange_solve, bound_constrained_solve): afterwards objective.p is the requested tuple and a True flag / normal return implies a small reference gradient / KKT residual under the requested parameters. 58k sequences / 211k load steps quick.",
+    "note": SHIM + "energies quadratic(+quartic) in x, affine in the bc parameter; constraints in the AL drivers are inactive over the reachable set",
+}
 NOT_APPLICABLE_REASON = {}
